@@ -136,6 +136,26 @@ def streams(tier, rng, P, only=None, cases=None):
                         if not src.endswith((" ", "\n")): src += " "
                         v = rng.randint(0, 99); exp.append("[PRINT](%d) %d" % (src.count("\n"), v)); src += "PRINT(%d); " % v
                 cs.append(dict(req="run " + hx(src), src=src, show=src[:300], kind="print", exp=exp, key="m%d" % i))
+            elif k < 0.22:
+                # statements that run again after control has been on later lines: loops and FOR bodies spanning lines, a function defined below its call
+                lead = rng.choice([0, 0, 1, 2]); form = rng.choice(["loop", "for", "func"]); reps = rng.randint(1, 3)
+                body = []; nl = rng.randint(1, 3)
+                for li in range(nl + 1):
+                    toks = [rng.choice(["c", "d8", "r", "v100"]) for _ in range(rng.randrange(0, 3))]
+                    if rng.random() < 0.7 or li == 0: toks.insert(rng.randrange(0, len(toks) + 1), "PRINT(%d);" % (10 * li + rng.randint(0, 9)))
+                    body.append(toks)
+                if form == "loop": body[0].insert(0, "[%d" % reps); body[-1].append("]")
+                elif form == "for": body[0].insert(0, "FOR(INT I=0;I<%d;I++){" % reps); body[-1].append("}")
+                else: body = [["FA();"] * reps + ["PRINT(99);"], ["FUNCTION FA(){"]] + body[1:] + [["}"]]
+                lines = [[] for _ in range(lead)] + body
+                once = []
+                for li, l in enumerate(lines):
+                    for t in l:
+                        if t.startswith("PRINT("): once.append((li, int(t[6:-2])))
+                if form == "func": exp = ["[PRINT](%d) %d" % e for e in once[1:]] * reps + ["[PRINT](%d) %d" % once[0]]
+                else: exp = ["[PRINT](%d) %d" % e for e in once] * reps
+                src = render(lines)
+                cs.append(dict(req="run " + hx(src), src=src, show=src[:300], kind="print", exp=exp, key="m%d" % i))
             elif k < 0.3:
                 lines = valid_lines(rng); exp = []
                 for li in range(len(lines)):
